@@ -18,21 +18,54 @@ class Done(BaseException):
     pass
 
 
+_REAL = {'utime': os.utime, 'exists': os.path.exists, 'stat': os.stat, 'unlink': os.unlink, 'getppid': os.getppid, 'kill': os.kill}
+
+
 class Sim:
-    """simulated clock + file state driving the *real* monitor main() and the real is_failed()"""
+    """simulated clock driving the *real* monitor main() and the real is_failed() on a REAL lock file: whatever way the code refreshes the
+    file (utime, touch, rewriting it ...) ends up in the interposed os.utime / the real file system, so the harness does not depend on
+    the names the module happens to import"""
 
     def __init__(self, deltas, death=None, removal=None, horizon=None):
+        import tempfile
         self.t0 = 1_000_000.0
         self.now = self.t0
-        self.mtime = self.t0
+        self.dir = tempfile.mkdtemp(prefix='jugverif-c19-')
+        Sim.ALL.append(self)
+        self.path = os.path.join(self.dir, 'LOCK')
+        open(self.path, 'w').close()
+        _REAL['utime'](self.path, (self.t0, self.t0))
         self.deltas = deltas            # callable(round) -> overshoot
         self.death, self.removal, self.horizon = death, removal, horizon
         self.calls = []
         self.refreshes = []
-        self.exists = True
+        self.removed = False
         self.max_age = 0.0
         self.rounds = 0
         self.parent = 4242
+
+    @property
+    def exists(self):
+        return _REAL['exists'](self.path)
+
+    @property
+    def mtime(self):
+        try:
+            return _REAL['stat'](self.path).st_mtime
+        except OSError:
+            return self.t0
+
+    ALL = []
+
+    def close(self):
+        import shutil
+        shutil.rmtree(self.dir, ignore_errors=True)
+
+    @classmethod
+    def close_all(cls):
+        for s_ in cls.ALL:
+            s_.close()
+        del cls.ALL[:]
 
     def sleep(self, s):
         self.calls.append(('sleep', s))
@@ -40,11 +73,16 @@ class Sim:
         if self.rounds > 400000 or (self.horizon is None and self.now - self.t0 > (self.death or 0) + (self.removal or 0) + 20000):
             raise Done()        # never hang: a helper that should have exited long ago counts as 'running'
         self.now += s + self.deltas(self.rounds)
-        self.max_age = max(self.max_age, self.now - self.mtime)
+        if self.exists:
+            self.max_age = max(self.max_age, self.now - self.mtime)
         if self.horizon is not None and self.now - self.t0 > self.horizon:
             raise Done()
-        if self.removal is not None and self.now - self.t0 >= self.removal:
-            self.exists = False
+        if self.removal is not None and self.now - self.t0 >= self.removal and not self.removed:
+            self.removed = True
+            try:
+                _REAL['unlink'](self.path)      # `jug cleanup --locks-only`, release by somebody else ...
+            except OSError:
+                pass
 
     def getppid(self):
         self.calls.append(('parentCheck',))
@@ -53,26 +91,48 @@ class Sim:
     def kill(self, pid, sig):
         return None
 
-    def utime(self, path, times):
+    def utime(self, path, times=None, **kw):
+        if os.path.abspath(str(path)) != os.path.abspath(self.path):
+            return _REAL['utime'](path, times, **kw)
         self.calls.append(('utime',))
-        if not self.exists:
-            raise FileNotFoundError(path)
-        self.mtime = self.now if times is None else times[1]
+        _REAL['utime'](self.path, (self.now, self.now) if times is None else times)      # raises FileNotFoundError if the lock is gone
         self.refreshes.append(self.now - self.t0)
 
 
 def run_monitor(sim):
+    import time as _time
     import jug.backends.file_keepalive_monitor as mon
-    saved = (mon.sleep, mon.getppid, mon.kill, mon.utime, mon.argv)
-    mon.sleep, mon.getppid, mon.kill, mon.utime = sim.sleep, sim.getppid, sim.kill, sim.utime
-    mon.argv = ['x', 'LOCK']
+    patched = []
+
+    def patch(obj, name, val):
+        if hasattr(obj, name):
+            patched.append((obj, name, getattr(obj, name)))
+            setattr(obj, name, val)
+    # the names the module may have bound at import time, and the library functions themselves
+    for name, val in (('sleep', sim.sleep), ('getppid', sim.getppid), ('kill', sim.kill), ('utime', sim.utime)):
+        patch(mon, name, val)
+    patch(os, 'utime', sim.utime)
+    patch(os, 'getppid', sim.getppid)
+    patch(os, 'kill', sim.kill)
+    patch(_time, 'sleep', sim.sleep)
+    patch(_time, 'time', lambda: sim.now)
+    patch(mon, 'time', lambda: sim.now)
+    import sys as _sys
+    saved_argv = (mon.argv if hasattr(mon, 'argv') else None, list(_sys.argv))
+    if hasattr(mon, 'argv'):
+        mon.argv = ['x', sim.path]
+    _sys.argv[:] = ['x', sim.path]
     try:
         mon.main()
         return ('exited', sim.now - sim.t0)
     except Done:
         return ('running', sim.now - sim.t0)
     finally:
-        mon.sleep, mon.getppid, mon.kill, mon.utime, mon.argv = saved
+        for obj, name, val in reversed(patched):
+            setattr(obj, name, val)
+        if saved_argv[0] is not None:
+            mon.argv = saved_argv[0]
+        _sys.argv[:] = saved_argv[1]
 
 
 def real_is_failed(sim, at):
@@ -260,8 +320,12 @@ def check(run):
         run.case(('removal', removal), nontrivial=True)
         if st[0] != 'exited' or st[1] > removal + R * (P + 0.5) + P + 1:
             run.fail('monitor-survives-lock-removal', 'lock file removed at +%d s: helper state %s' % (removal, st), {'kind': 'removal', 'removal': removal})
+        if sim.exists:
+            run.fail('helper-recreates-lock', 'lock file removed at +%d s (cleanup / release by somebody else): the helper created it again - the task looks locked by a worker that does not hold it' % removal, {'kind': 'removal', 'removal': removal})
     # 4. the real helper process, started by the real lock with a relative jug directory
+    Sim.close_all()
     real_helper(run, quick)
+    dead_worker_cleanup(run, E)
     if run.corr_disagreements == 0:
         run.obligation('correspondence: %d simulated-clock runs of the real monitor/is_failed agree with the model' % run.corr_programs, True)
 
@@ -291,7 +355,7 @@ os.utime(lk.fullname, (m0 - 1000, m0 - 1000))
 pid = lk.monitor.pid
 t0 = time.time()
 refreshed = False
-while time.time() - t0 < 8:
+while time.time() - t0 < 40:
     if os.stat(lk.fullname).st_mtime > m0 - 900:
         refreshed = True
         break
@@ -300,8 +364,14 @@ print('REFRESHED', refreshed, flush=True)
 mode = sys.argv[1]
 if mode == 'release':
     lk.release()
-    time.sleep(0.3)
-    alive = os.path.exists('/proc/%%d' %% pid) and 'Z' not in open('/proc/%%d/stat' %% pid).read().split()[2]
+    t1 = time.time()
+    alive = True
+    while alive and time.time() - t1 < 20:
+        time.sleep(0.1)
+        try:
+            alive = os.path.exists('/proc/%%d' %% pid) and 'Z' not in open('/proc/%%d/stat' %% pid).read().split()[2]
+        except OSError:
+            alive = False
     print('HELPER_ALIVE_AFTER_RELEASE', alive, flush=True)
 else:
     print('HELPERPID', pid, flush=True)
@@ -309,7 +379,7 @@ else:
 ''' % d
         env = dict(os.environ, PYTHONPATH=d + os.pathsep + core.REPO + os.pathsep + os.environ.get('PYTHONPATH', ''))
         for mode in (['release'] if quick else ['release', 'die']):
-            p = subprocess.run([sys.executable, '-c', code, mode], stdout=subprocess.PIPE, stderr=subprocess.PIPE, text=True, env=env, timeout=60, cwd=d)
+            p = subprocess.run([sys.executable, '-c', code, mode], stdout=subprocess.PIPE, stderr=subprocess.PIPE, text=True, env=env, timeout=300, cwd=d)
             out = p.stdout
             run.case(('real-helper', mode), nontrivial=True)
             run.count('real_helper_runs')
@@ -325,7 +395,7 @@ else:
                     pid = int(m.group(1))
                     t0 = time.time()
                     gone = False
-                    while time.time() - t0 < 3:
+                    while time.time() - t0 < 30:
                         if not os.path.exists('/proc/%d' % pid):
                             gone = True
                             break
@@ -337,6 +407,76 @@ else:
                         except OSError:
                             pass
     finally:
+        core.rm_rf(d)
+
+
+KA_JUGFILE = '''from jug import TaskGenerator
+import os, time
+HERE = os.path.dirname(os.path.abspath(__file__))
+@TaskGenerator
+def slow(x):
+    open(os.path.join(HERE, 'inside'), 'w').close()
+    while os.path.exists(os.path.join(HERE, 'block')):
+        time.sleep(0.02)
+    return x + 1
+@TaskGenerator
+def after(y):
+    return y * 2
+r = after(slow(20))
+'''
+
+
+def dead_worker_cleanup(run, expiry):
+    """end to end on the keep-alive backend with real processes: a worker is SIGKILLed inside a task; its lock, once older than the expiry,
+    is reported failed; `jug cleanup --failed-only` removes it (and only then); a new worker completes the computation"""
+    import signal
+    import subprocess
+    from jugverif.loadercheck import jug_cli, jug_cli_popen
+    d = core.scratch_dir()
+    rp = {'kind': 'dead-worker-cleanup'}
+    try:
+        open(os.path.join(d, 'jugfile.py'), 'w').write(KA_JUGFILE)
+        open(os.path.join(d, 'block'), 'w').close()
+        jd = 'file_keepalive:' + os.path.join(d, 'ka.jugdata')
+        common = ['--jugdir', jd, '--will-cite']
+        p = jug_cli_popen(['execute'] + common + ['--nr-wait-cycles', '1', '--wait-cycle-time', '0', 'jugfile.py'], d)
+        t0 = time.time()
+        while not os.path.exists(os.path.join(d, 'inside')):
+            if p.poll() is not None or time.time() - t0 > 240:
+                raise core.InfraError('keep-alive worker never reached the task: ' + (p.communicate()[0] or '')[-300:])
+            time.sleep(0.02)
+        lockdir = os.path.join(d, 'ka.jugdata', 'locks')
+        locks = os.listdir(lockdir)
+        p.send_signal(signal.SIGKILL)
+        p.communicate()
+        os.unlink(os.path.join(d, 'block'))
+        run.case(('dead-worker-cleanup',), nontrivial=True)
+        run.count('dead_worker_cleanup_runs')
+        if len(locks) != 1:
+            run.fail('keepalive-lock-missing', 'worker inside a task on the keep-alive backend: lock files %s' % locks, rp)
+            return
+        lf = os.path.join(lockdir, locks[0])
+        # wait for the orphaned helper to notice (it must not refresh the lock any more), then let the lock age
+        time.sleep(0.5)
+        # (a) young lock of the dead worker: not failed yet -> --failed-only must leave it, a new worker must skip the task
+        r = jug_cli(['cleanup'] + common + ['--failed-only', 'jugfile.py'], d)
+        if not os.path.exists(lf):
+            run.fail('cleanup-removes-live-lock', 'keep-alive lock of age < 1 min was removed by `cleanup --failed-only`: %s' % r.stdout.strip()[-200:], rp)
+            return
+        now = time.time()
+        os.utime(lf, (now - expiry - 60, now - expiry - 60))
+        st = jug_cli(['status'] + common + ['jugfile.py'], d).stdout
+        r = jug_cli(['cleanup'] + common + ['--failed-only', 'jugfile.py'], d)
+        if os.path.exists(lf):
+            run.fail('expired-lock-not-cleaned', 'the lock of a dead worker, not refreshed for expiry + 60 s, is still there after `jug cleanup --failed-only` (which printed %r)' % r.stdout.strip().split('\n')[-1], rp)
+            return
+        r2 = jug_cli(['execute'] + common + ['--nr-wait-cycles', '1', '--wait-cycle-time', '0', 'jugfile.py'], d)
+        chk = jug_cli(['check'] + common + ['jugfile.py'], d)
+        if r2.returncode != 0 or chk.returncode != 0 or os.listdir(lockdir):
+            run.fail('task-cannot-run-again', 'after the cleanup of the expired lock a new worker did not complete the computation: execute rc %s, check rc %s, locks %s' % (r2.returncode, chk.returncode, os.listdir(lockdir)), rp)
+    finally:
+        # the orphaned helper of the killed worker ends by itself within one period; make sure nothing is left behind
+        subprocess.run(['pkill', '-f', os.path.join(d, 'ka.jugdata')], stdout=subprocess.DEVNULL, stderr=subprocess.DEVNULL)
         core.rm_rf(d)
 
 
